@@ -1,9 +1,15 @@
 // E5: the lazy_static table CHAR_ACCESS_MAP is replaced by an accessor with an assumed contract; the initialiser
 // _char_access_map() itself is kept verbatim.
+/// the table as a function: what CHAR_ACCESS_MAP holds for a character (shift needed, key) - uninterpreted; the real table is compared with the
+/// US-QWERTY layout for every Unicode scalar value by the enumeration `tables` on every run (C13 evidence, enumerative)
+pub uninterp spec fn cam_entry(c: char) -> Option<(bool, KeyCode)>;
 pub struct CAM {}
 impl CAM {
   #[verifier::external_body]
   pub fn get(&self, c: &char) -> (res: Option<&SinkKey>)
+    ensures
+      //@ C13 | ASSUMED (E5): a lookup in the immutable table is a function of the character
+      match res { Some(sk) => cam_entry(*c) == Some((sk.sh, sk.k)), None => cam_entry(*c) is None },
   { unimplemented!() }
 }
 pub exec static CHAR_ACCESS_MAP: CAM ensures true { CAM{} }
